@@ -14,6 +14,7 @@ import (
 	"math/rand/v2"
 	"net/url"
 	"runtime"
+	"sort"
 	"strings"
 	"sync"
 	"sync/atomic"
@@ -208,10 +209,19 @@ type RSAKeyStore struct {
 	// Raw, when set, is handed out instead of the fixed key: the same key assembled from its components, without
 	// the precomputed CRT values (what a loader of a foreign key format produces). It belongs to the caller.
 	Raw *rsa.PrivateKey
+	// Jitter makes GetKeyPair yield or sleep briefly (a key store backed by a file, an agent, an HSM).
+	Jitter bool
 }
 
 func (k *RSAKeyStore) GetKeyPair() (*rsa.PrivateKey, []byte, error) {
-	k.Calls.Add(1)
+	if n := k.Calls.Add(1); k.Jitter {
+		switch n % 3 {
+		case 0:
+			runtime.Gosched()
+		case 1:
+			time.Sleep(time.Duration(50+(n*37)%150) * time.Microsecond)
+		}
+	}
 	if k.Raw != nil {
 		return k.Raw, k.C.DER, nil
 	}
@@ -557,4 +567,69 @@ func (o OpaqueKey) Sign(rnd io.Reader, digest []byte, opts crypto.SignerOpts) ([
 }
 func (o OpaqueKey) Decrypt(rnd io.Reader, msg []byte, opts crypto.DecrypterOpts) ([]byte, error) {
 	return o.k.Decrypt(rnd, msg, opts)
+}
+
+// roundMarker only exists to be found in goroutine dumps: the calls of a concurrent round run inside it.
+//
+//go:noinline
+func roundMarker(fn func()) { fn() }
+
+// roundGoroutines describes the goroutines that are inside roundMarker: how many there are, whether every one of them
+// is parked on a lock / semaphore / channel, and a signature of their states and top frames.
+func roundGoroutines() (n int, allParked bool, sig string) {
+	buf := make([]byte, 16<<20)
+	buf = buf[:runtime.Stack(buf, true)]
+	allParked = true
+	var parts []string
+	for _, g := range strings.Split(string(buf), "\n\n") {
+		if !strings.Contains(g, "props.roundMarker") {
+			continue
+		}
+		n++
+		lines := strings.Split(g, "\n")
+		state := lines[0]
+		if i := strings.Index(state, "["); i >= 0 {
+			state = strings.TrimSuffix(strings.SplitN(state[i+1:], ",", 2)[0], "]:")
+		}
+		parked := false
+		for _, p := range parkedStates {
+			if strings.HasPrefix(state, p) {
+				parked = true
+			}
+		}
+		if !parked {
+			allParked = false
+		}
+		parts = append(parts, state+"\n"+strings.Join(lines[1:min(len(lines), 9)], "\n"))
+	}
+	sort.Strings(parts)
+	return n, allParked && n > 0, strings.Join(parts, "\n--\n")
+}
+
+// WaitRound waits for the goroutines of a concurrent round. When some have not finished after the grace period, it looks
+// at them twice, five seconds apart: if all of them are parked on synchronisation primitives with the very same frames
+// both times, the round is blocked (the description is returned); otherwise it keeps waiting, up to six looks, and then
+// reports "still running" (returned=false, blocked=""), which callers treat as inconclusive.
+func WaitRound(wg *sync.WaitGroup, grace time.Duration) (returned bool, blocked string) {
+	done := make(chan struct{})
+	go func() { wg.Wait(); close(done) }()
+	select {
+	case <-done:
+		return true, ""
+	case <-time.After(grace):
+	}
+	_, p1, s1 := roundGoroutines()
+	for look := 0; look < 6; look++ {
+		select {
+		case <-done:
+			return true, ""
+		case <-time.After(5 * time.Second):
+		}
+		_, p2, s2 := roundGoroutines()
+		if p1 && p2 && s1 == s2 {
+			return false, s2
+		}
+		p1, s1 = p2, s2
+	}
+	return false, ""
 }
